@@ -21,7 +21,7 @@ def run(ck, tier):
         "verdicts come from the abstract level (Morass.tla); the internal-view comparison only reports model drift",
     ]
     # (A) exhaustive refinement check
-    consts = {"MaxPush": 9, "ChunkSizes": "{1, 2, 3, 4}"} if thorough else {"ACLs": "{FALSE}", "CleanUps": "FALSE", "MaxPush": 6}
+    consts = {"MaxPush": 9, "ChunkSizes": "{1, 2, 3, 4}", "KD": 16} if thorough else {"ACLs": "{FALSE}", "CleanUps": "FALSE", "MaxPush": 6}
     cfg = vlib.subst_cfg("Morass", "MorassMC.cfg", consts)
     r = vlib.tlc("Morass", "MorassImpl", None, cfg_text=cfg, workers=16, timeout=3000)
     vlib.tlc_expect_ok(r, "MorassMC")
